@@ -101,8 +101,12 @@ def sections_gir(rng, mask, k, dep=False):
             else:
                 L.append('<field name="f%d" writable="1"><type name="%s" c:type="%s"/></field>' % (i, rng.choice(['gint', 'gint8', 'gdouble', 'gpointer']), 'gint'))
     if mask & 8:
+        off = rng.randrange(5)
         for i in range(k):
-            L.append('<property name="p%d" writable="1" transfer-ownership="none"><type name="gint" c:type="gint"/></property>' % i)
+            # every flag combination, with accessor links when the object has methods to link to
+            fl = [' writable="1"', ' writable="1" construct="1"', ' writable="1" construct-only="1"', ' readable="0" writable="1"', ''][(i + off) % 5]
+            acc = ' setter="m0" getter="m%d"' % (k - 1) if mask & 16 else ''
+            L.append('<property name="p%d"%s%s transfer-ownership="none"><type name="gint" c:type="gint"/></property>' % (i, fl, acc))
     if mask & 16:
         for i in range(k):
             L.append(fn('method', 'm%d' % i))
@@ -214,7 +218,11 @@ def run_case(case):
             return res
         data = open(tpath, 'rb').read()
         replay = {'gir': gir[:30000], 'kind': kind}
-        tl = typelib.Typelib(data)
+        try:
+            tl = typelib.Typelib(data)
+        except typelib.TypelibDecodeError as e:
+            viol.append(('typelib-malformed', 'the compiled typelib cannot be decoded by the independent decoder: %s' % e, replay))
+            return res
         dec = accessor_view(json.loads(json.dumps(tlexpect.FromTypelib(tl).model())))      # tuples -> lists, as in the driver's JSON
         # (a) the public API
         rc, so, se = csan.run([st['driver'], tdir, nsname, '1.0'], info)
